@@ -1002,24 +1002,28 @@ static void dump_chrome_perf_event(struct uftrace_dump_ops *ops, struct uftrace_
 {
 	uint64_t evt_id = frs->addr;
 	bool is_process = perf->u.comm.pid == perf->tid;
+	char comm_buf[sizeof(perf->u.comm.comm) * 5 + 1];
 
 	switch (evt_id) {
 	case EVENT_ID_PERF_COMM:
+		/* the task name goes into a JSON string */
+		json_escape_str(comm_buf, sizeof(comm_buf), perf->u.comm.comm, false);
+
 		if (is_process) {
 			pr_out(",\n{\"ts\":0,\"ph\":\"M\",\"pid\":%d,"
 			       "\"name\":\"process_name\","
 			       "\"args\":{\"name\":\"%s\"}}",
-			       perf->tid, perf->u.comm.comm);
+			       perf->tid, comm_buf);
 			pr_out(",\n{\"ts\":0,\"ph\":\"M\",\"pid\":%d,"
 			       "\"name\":\"thread_name\","
 			       "\"args\":{\"name\":\"%s\"}}",
-			       perf->tid, perf->u.comm.comm);
+			       perf->tid, comm_buf);
 		}
 		else {
 			pr_out(",\n{\"ts\":0,\"ph\":\"M\",\"pid\":%d,\"tid\":%d,"
 			       "\"name\":\"thread_name\","
 			       "\"args\":{\"name\":\"[%d] %s\"}}",
-			       perf->u.comm.pid, perf->tid, perf->tid, perf->u.comm.comm);
+			       perf->u.comm.pid, perf->tid, perf->tid, comm_buf);
 		}
 		break;
 	default:
